@@ -121,6 +121,7 @@ def check(ctx):
     _r3(ctx)
     _r4(ctx)
     _r5(ctx)
+    _r5_index_arrays(ctx)
     _r6(ctx)
 
 
@@ -425,6 +426,30 @@ def _r5(ctx):
                     bad.append((n, src(par)[:60] if par is not None else "?"))
             ctx.decide(n_uses > 0 and not bad, "C02-R5", bad[0][0] if bad else rd, rel, cls + ".read", "atom_indices only subscripts the assembled frame (%d uses)" % n_uses, "",
                        "atom_indices is used in `%s`: the selection reaches the frame parser, which identifies atoms by line position / id column, not by the caller's index" % (bad[0][1] if bad else ""))
+
+
+def _r5_index_arrays(ctx):
+    """numpy broadcasts two index arrays that appear in one subscript against each other: the frame selection and the atom selection must not share a subscript unless one of them is a slice."""
+    n_sites = 0
+    for rel in sorted(ctx.py.all_py("mdtraj/formats")) + [TRAJ]:
+        m = ctx.py.mod(rel)
+        for q, fn in m.functions.items():
+            if not (q.startswith("load") or q.endswith((".read", ".read_as_traj", "._read"))):
+                continue
+            for n in walk_no_nested(fn):
+                if not (isinstance(n, ast.Subscript) and isinstance(n.slice, ast.Tuple)):
+                    continue
+                elts = n.slice.elts
+                atomish = [e for e in elts if isinstance(e, ast.Name) and e.id in ("atom_indices", "atom_slice")]
+                if not atomish:
+                    continue
+                n_sites += 1
+                arrays = [e for e in elts if e not in atomish and (isinstance(e, (ast.List, ast.Tuple)) or (isinstance(e, ast.Name) and e.id not in ("Ellipsis",) and not e.id.endswith("slice")) or isinstance(e, ast.Call))]
+                ctx.decide(not arrays, "C02-R5", n, rel, q, "`%s`: the atom selection is the only index array in its subscript" % src(n)[:50], "",
+                           "`%s` combines the atom selection with another index array (`%s`) in one subscript: numpy pairs the two arrays element by element instead of selecting a frame x atom block"
+                           % (src(n)[:60], src(arrays[0]) if arrays else ""))
+    if n_sites < 8:
+        raise AnalysisError("only %d subscripts with an atom selection found in the loaders" % n_sites)
 
 
 def _r6(ctx):
